@@ -203,17 +203,22 @@ func matchPropTimeRange(start, end time.Time, field *ical.Prop) (bool, error) {
 }
 
 func matchParamFilter(filter ParamFilter, field *ical.Prop) bool {
-	// TODO there can be multiple values
-	value := field.Params.Get(filter.Name)
-	if value == "" {
+	values := field.Params.Values(filter.Name)
+	if len(values) == 0 {
 		return filter.IsNotDefined
 	} else if filter.IsNotDefined {
 		return false
 	}
-	if filter.TextMatch != nil {
-		return matchTextMatch(*filter.TextMatch, value)
+	if filter.TextMatch == nil {
+		return true
 	}
-	return true
+	// the parameter can have several values
+	for _, value := range values {
+		if matchTextMatch(*filter.TextMatch, value) {
+			return true
+		}
+	}
+	return false
 }
 
 func matchTextMatch(txt TextMatch, value string) bool {
